@@ -107,6 +107,7 @@ SCRIPTS = {
                                 ["event", "release_hold"], ["drain"], ["drain"], ["drain"]]),
     "two-attempts": ("t1", {"ball_devices": {"bd_plunger": {"max_eject_attempts": 2}}}, [["start"], ["drain"]]),
 }
+DEEP_SCRIPTS = ("one-ball-game", "mechanical-plunger", "two-attempts", "lock-shot", "saucer-shot")
 LONG_SCRIPTS = ("over-request", "stale-lock-request", "held-balls")
 QUICK_SCRIPTS = ("one-ball-game", "two-balls-in-play", "mechanical-plunger", "lock-shot", "saucer-shot", "plunger-lane-return",
                  "over-request", "outhole", "full-trough", "stale-lock-request", "held-balls")
@@ -458,8 +459,11 @@ def explore(ctx, prefix):
     states = set()
     bounds = {}
     for name in (QUICK_SCRIPTS if quick else SCRIPTS):
-        # the long scripts (30-50 choice points by default) get one deviation less
+        # the long scripts (30-50 choice points by default) get one deviation less; the third deviation of the thorough
+        # tier is only affordable on the scripts with one ball in play
         b = bound - 1 if name in LONG_SCRIPTS else bound
+        if not quick and name not in LONG_SCRIPTS and name not in DEEP_SCRIPTS:
+            b = 2
         bounds[name] = b
         res = dbs(make_driver(name), b, horizon=120)
         total_exec += res.executions
@@ -480,7 +484,7 @@ def explore(ctx, prefix):
     ctx.assume("topologies %s; scripts %s" % (sorted(TOPO), {k: (v[0], v[1], v[2]) for k, v in SCRIPTS.items() if not quick or k in QUICK_SCRIPTS}),
                "world outcomes per coil pulse: ok / silent (playfield only) / falls back after 0.6 s / does not move / arrives 1 s "
                "after the eject timeout; transit 0.3 s between devices, 1 s to the first playfield switch",
-               "deviation bound %d (%d for the long scripts %s); every execution is run to rest with default answers" % (bound, bound - 1, list(LONG_SCRIPTS)),
+               "deviation bound per script: %r; every execution is run to rest with default answers" % (bounds,),
                "ideal switches (no bounce); ball search disabled; balls never vanish")
     return ("starts", "drains", "rest_states", "distinct_outcomes")
 
